@@ -351,9 +351,10 @@ func (fe *FnExec) applyContract(st *State, in ssa.Instruction, ci calleeInfo, al
 		}
 		st.assume(t, fmt.Sprintf("ensures of %s: %s", ci.short, cl.Text))
 	}
-	st.callCnt[ci.short]++
+	st.countCall(ci.short)
 	{
-		rec := callRec{args: all, argT: ci.ptypes, res: res}
+		st.callSeq++
+		rec := callRec{pre: pre, seq: st.callSeq, args: all, argT: ci.ptypes, res: res}
 		if res != nil {
 			if ci.results.Len() == 1 {
 				rec.resT = ci.results.At(0).Type()
@@ -421,6 +422,7 @@ func (fe *FnExec) havocEntries(st *State, ents []modEntry, why string) {
 
 // havocCall: permissive treatment of an un-contracted call (assumption A5).
 func (fe *FnExec) havocCall(st *State, in ssa.Instruction, ci calleeInfo, all []SVal) SVal {
+	preCall := st.snapshot()
 	for i, a := range all {
 		fe.havocReachable(st, a, ci.ptypes[i])
 	}
@@ -428,21 +430,33 @@ func (fe *FnExec) havocCall(st *State, in ssa.Instruction, ci calleeInfo, all []
 	st.assume(Ge(n, st.now), "allocation clock is monotone")
 	st.now = n
 	fe.noteAbstracted(ci.desc)
+	st.bumpMaps()
+	var res SVal
+	var resT types.Type
 	switch ci.results.Len() {
 	case 0:
-		return nil
 	case 1:
 		v, err := st.freshValue("hr."+ci.short, ci.results.At(0).Type())
 		if err != nil {
 			fe.fail("%s: result of %s: %v", fe.pos(in.Pos()), ci.desc, err)
 		}
-		return v
+		res, resT = v, ci.results.At(0).Type()
+	default:
+		v, err := st.freshValue("hr."+ci.short, ci.results)
+		if err != nil {
+			fe.fail("%s: result of %s: %v", fe.pos(in.Pos()), ci.desc, err)
+		}
+		res, resT = v, ci.results
 	}
-	v, err := st.freshValue("hr."+ci.short, ci.results)
-	if err != nil {
-		fe.fail("%s: result of %s: %v", fe.pos(in.Pos()), ci.desc, err)
+	st.countCall(ci.short)
+	st.callSeq++
+	st.callLog[fmt.Sprintf("%s#%d", ci.short, st.callCnt[ci.short])] = callRec{pre: preCall, seq: st.callSeq, args: all, argT: ci.ptypes, res: res, resT: resT}
+	for _, cg := range fe.C.CallGhosts {
+		if cg.Callee == ci.short && cg.Ordinal == fe.callOrd[in] && cg.Kind == "bind" && res != nil {
+			st.binds[cg.Name] = Binding{res, resT}
+		}
 	}
-	return v
+	return res
 }
 
 func (fe *FnExec) noteAbstracted(desc string) {
